@@ -541,7 +541,8 @@ def c12_raising(tier, rnd):
 
 
 # ------------------------------------------------------------------ C04 / C19
-CAUGHT = ["AttributeError", "NameError", "LookupError", "TypeError", "ValueError", "KeyError", "UnicodeError"]
+CAUGHT = ["AttributeError", "NameError", "LookupError", "TypeError", "ValueError", "KeyError", "UnicodeError", "IndexError", "SubLookup",
+          "UnboundLocalError"]
 NOTCAUGHT = ["ZeroDivisionError", "RuntimeError"]
 WRAPS = ["lambda", "lamarg", "listcomp", "genexp", "cond", "dictitem", "setcomp", "paren", "compx", "genx", "lamdef", "nestlam", "lamkw"]
 
@@ -650,6 +651,10 @@ def c04_family(tier, rnd):
         else:
             ex = excs
         for site in sites:
+            if tier == "quick":
+                # every program draws its own two recoverable classes (and one that is not), so that the family as a
+                # whole covers every class the alternatives recover from
+                ex = rnd.sample(CAUGHT, 2) + [rnd.choice(NOTCAUGHT)]
             al = Alloc(tier)
             okv = [SEQ([S("a"), S("b")])] if site == "repeat" else [S("a")]
             mk = dict(shapes(al, tier, ex, ok=okv))[sname]
@@ -833,6 +838,22 @@ def c08_family(tier, rnd):
                  Open(rep=(False, "y", al.call("repeat", [SEQ([S("b"), S("c")]), SEQ([])])), sattr=[]), _repbody("y", ["number", "length", "letter"]),
                  CLOSE, Text("o"), _repbody("x", ["index", "number", "Roman", "odd", "start", "end"]), CLOSE, Text("post")]
         progs.append(program(items, al.dom, cfg={"_carrier": car}, fam="C08:carrier-nest:%s" % car))
+    # (b'') the repeat expression reads the variable it is about to bind ("descend one level": tal:repeat="x x"),
+    # also nested and with global scope: the expression sees the outer value, the body the item
+    tree = SEQ([SEQ([S("a"), S("b")]), SEQ([S("c")]), SEQ([])])
+    for glob_ in (False, True):
+        for depth in (1, 2):
+            al = Alloc(tier)
+            items = [Text("pre\n "), Open(rep=(glob_, "x", var("x"))), Text("[", repv("x", "number"), "/", repv("x", "length"), "]")]
+            if depth == 2:
+                items += [Text("\n  "), Open(rep=(False, "x", var("x")), sattr=[]), _repbody("x", ["index", "end", "letter"]), CLOSE,
+                          Text("o", repv("x", "number"))]
+            items += [CLOSE, Text("post")]
+            progs.append(program(items, al.dom, init={"x": tree}, fam="C08:selfref:%s:%d" % (glob_, depth)))
+    al = Alloc(tier)
+    items = [Text("pre\n "), Open(rep=(False, ("x", "y"), var("x"))), Text("[", pipe(var("x"), const(S("u0"))), ",", pipe(var("y"), const(S("u0"))), "]"),
+             CLOSE, Text("post")]
+    progs.append(program(items, al.dom, init={"x": SEQ([SEQ([S("a"), S("b")]), SEQ([S("c"), S("p")])])}, fam="C08:selfref:unpack"))
     # (c) nesting with reused and distinct names; outer variables read after the inner loop
     names = ["x", "y"]
     for n1 in names:
